@@ -610,3 +610,15 @@ Example valvec32_history_example :
   | UB => False
   end.
 Proof. vm_compute. repeat split. Qed.
+
+(* Clone of a non-trivial vector, for an allocator that hands out more than was asked for, and for the empty vector *)
+Example valvec32_clone_example :
+  match vv32_run N (vv_with_capacity N 2 3) [WPush 1; WPush 2; WPush 3; WPush 4] with
+  | Ok (v, _) => W N v [1; 2; 3; 4] ->
+                 match vv32_clone N v 6, vv32_clone N (vv_new (A:=N)) 0 with
+                 | Ok c, Ok e => wlen c = 4 /\ wcap c = 6 /\ wbuf c 3 = Some 4 /\ wbuf c 4 = None /\ wlen e = 0 /\ wcap e = 0
+                 | _, _ => False
+                 end
+  | UB => False
+  end.
+Proof. vm_compute. intros _. repeat split. Qed.
